@@ -496,6 +496,13 @@ func runOne(c *driver.Ctx, cfg *runCfg, pls []*payload) (splitSeen bool) {
 		info := client.FromContext(ctx)
 		for key := range lowKeys {
 			sc.md[key] = info.Metadata.Get(key)
+			// a downstream consumer may do what it likes with the values it was handed (normalise, redact): Get returns
+			// a copy, so this must never show in the metadata of a later batch
+			if scratch := info.Metadata.Get(key); k%2 == 1 {
+				for i := range scratch {
+					scratch[i] = "edited-by-the-consumer-of-batch-" + fmt.Sprint(k)
+				}
+			}
 		}
 		for key := range info.Metadata.Keys() {
 			if !lowKeys[strings.ToLower(key)] {
